@@ -34,6 +34,8 @@ type faultSession struct {
 	lastViol    string
 	interrupted string // model line of a Delete kept in its interrupted state
 	kfSeen      int
+	// noRetryApplied: the last faultnoretry op was applied after all (fault not reached / swallowed)
+	noRetryApplied bool
 }
 
 func newFaultSession(c Cfg) *faultSession {
@@ -168,6 +170,33 @@ func (fs *faultSession) Exec(line string) (obs, viol string) {
 			}
 		}
 		return "too-many-calls", "operation makes more than 500 fallible calls"
+	}
+	if t[0] == "faultnoretry" {
+		// faultnoretry <kind> <i> <op...>: the op with its i-th fallible call failing, and NO retry:
+		// what follows (stat, MakeRoot) sees the tree as the failed call left it.  Whether a failed
+		// call may change contents is C12's business (family `faults`); here a change just ends the case.
+		kind := t[1]
+		var idx int
+		fmt.Sscan(t[2], &idx)
+		op := strings.Join(t[3:], " ")
+		slot := fs.slotOf(t[3:])
+		before := fs.snapshot(slot)
+		oracleBefore := copyMap(fs.Oracle[slot])
+		o1, hit := fs.runWithFault(kind, idx, op)
+		fs.positions++
+		if !hit || !strings.HasPrefix(o1, "err") {
+			// the operation did not get that far, or swallowed the fault: it has been applied
+			fs.noRetryApplied = true
+			fs.lastObs = o1
+			return o1, ""
+		}
+		fs.noRetryApplied = false
+		fs.Oracle[slot] = oracleBefore
+		if after := fs.snapshot(slot); after != before {
+			fs.aborted = true
+		}
+		fs.lastObs = "failed-noretry"
+		return "failed-noretry", ""
 	}
 	if t[0] != "fault" {
 		fs.interrupted = ""
@@ -353,6 +382,12 @@ func (fs *faultSession) ModelLine(line string) string {
 	}
 	if (t[0] == "fault" || t[0] == "faultall") && fs.interrupted != "" {
 		return fs.interrupted
+	}
+	if t[0] == "faultnoretry" {
+		if fs.noRetryApplied {
+			return fs.Session.ModelLine(strings.Join(t[3:], " "))
+		}
+		return "echo failed-noretry"
 	}
 	if t[0] == "fault" {
 		return fs.Session.ModelLine(strings.Join(t[3:], " "))
